@@ -43,6 +43,9 @@ def run {β : Type} [LT β] [DecidableLT β] (add : β → β → β) (big : β)
   | _, _ => "bad-request"
 
 def bigQ : Rat := (10 : Rat) ^ 300
+/-- the `1e300` sentinel and the `1e-300` guard (top-level constants: evaluated once) -/
+def bigF : Float := 1e300
+def epsF : Float := 1e-300
 
 def handle (cmd : String) (args : List String) : String :=
   match cmd, args with
@@ -55,7 +58,7 @@ def handle (cmd : String) (args : List String) : String :=
     if mode != "log" && mode != "lik" then "bad-request" else
     match natList? n, floatList? p, floatList? q with
     | some ns, some pf, some qf =>
-      run (· + ·) (1e300 : Float) (costOf Float.log 1e-300 (mode == "log")) showFloat ns pf qf
+      run (· + ·) bigF (costOf Float.log epsF (mode == "log")) showFloat ns pf qf
     | _, _, _ => "bad-request"
   | _, _ => "bad-request"
 end TV.Drv.C09
